@@ -169,7 +169,7 @@ def vhdx(size=1 << 30, meta_offset=VHDX_HEADER_END, item_offset=65536,
          pad_items_after=1, item_length=8, region_count=None,
          meta_count=None, region_sig=b'regi', meta_sig=b'metadata',
          meta_len_field=1 << 20, tail=64, ident=b'vhdxfile', seed=0,
-         with_meta_entry=True, with_vds_entry=True):
+         with_meta_entry=True, with_vds_entry=True, vds_flags=0):
     bounds = [8, 32, VHDX_HEADER, VHDX_HEADER + 16, VHDX_HEADER_END]
     total = max(meta_offset + item_offset + max(8, min(item_length, 65536)) + tail,
                 meta_offset + 32 + 32 * (pad_items_before + pad_items_after + 1) + tail,
@@ -216,7 +216,8 @@ def vhdx(size=1 << 30, meta_offset=VHDX_HEADER_END, item_offset=65536,
         if p + 32 > total:
             break
         buf[p:p + 16] = g.bytes_le
-        struct.pack_into('<III', buf, p + 16, off & 0xffffffff, ln & 0xffffffff, 0)
+        struct.pack_into('<III', buf, p + 16, off & 0xffffffff, ln & 0xffffffff,
+                         (vds_flags & 0xffffffff) if g == GUID_VDS else 0)
         bounds += [p, p + 16, p + 32]
     table_end = meta_offset + 32 + 32 * len(items)
     vds_at = meta_offset + item_offset
